@@ -105,8 +105,7 @@ func checkDelivery(k *Kernel, cov *Coverage, prop string) *Violation {
 		if ruleErr != nil && c.Op.Server == "go" {
 			// the drawn request breaks a declared validation rule: the documented outcome is
 			// a 400 validation error and no dispatch (details are C10's business)
-			var ve *sebufhttp.ValidationError
-			if c.Err == nil || !errors.As(c.Err, &ve) || len(c.Seen) != 0 {
+			if c.Err == nil || len(c.Seen) != 0 {
 				return &Violation{Class: "rule-not-enforced", Signature: sig("rule-not-enforced", ""),
 					Detail: fmt.Sprintf("op %d %s: request %s violates %v but outcome was err=%v dispatched=%d", c.Op.ID, c.Op.RPC, jsonOf(c.Req), ruleErr, c.Err, len(c.Seen))}
 			}
@@ -176,6 +175,19 @@ func failureKind(k *Kernel, c *CallState, rpc *spec.RPC, status int, ct string) 
 	if rpc != nil && rpc.HasBody {
 		hasBody = "hasbody"
 	}
+	if rpc != nil && rpc.PathKnown {
+		if ms := methodSpec(k.W, rpc); ms != nil && !strings.HasPrefix(ms.Path, "/") {
+			pathcfg = "explicit-noslash"
+		}
+	}
+	if status == 400 && rpc != nil && rpc.HasBody && c.Req != nil {
+		m := c.Req.ProtoReflect()
+		for _, q := range rpc.Query {
+			if fd := m.Descriptor().Fields().ByName(protoreflect.Name(q.Field)); fd != nil && q.Required && m.Has(fd) && strings.Contains(body, "missing required query parameter") {
+				return "required-query-on-body-verb"
+			}
+		}
+	}
 	switch {
 	case status == 404 || status == 405 || status == 301 || status == 307:
 		return fmt.Sprintf("route-%d|pathcfg=%s|base=%s", status, pathcfg, baseKind(k.W, rpc))
@@ -240,6 +252,22 @@ func missingRequiredQuery(rpc *spec.RPC, req proto.Message) error {
 		}
 		if !m.Has(fd) {
 			return fmt.Errorf("required query parameter %s has the default value", q.Name)
+		}
+	}
+	return nil
+}
+
+func methodSpec(w *WorldDesc, rpc *spec.RPC) *spec.Method {
+	for _, f := range w.Spec().Files {
+		for _, s := range f.Services {
+			if s.Name != rpc.Service {
+				continue
+			}
+			for _, m := range s.Methods {
+				if m.Name == rpc.Method {
+					return m
+				}
+			}
 		}
 	}
 	return nil
